@@ -4,9 +4,11 @@ import (
 	"bytes"
 	"fmt"
 	"math/rand"
+	"os"
 	"reflect"
 	"runtime/debug"
 	"strings"
+	"time"
 
 	"free5gclib/aper"
 	"free5gclib/ngap"
@@ -248,6 +250,8 @@ func runC04(c *fw.Case) (o fw.Outcome) {
 		o.Count("pdus_round_tripped", 1)
 		o.Max("largest_encoding_octets", int64(len(canon)))
 		o.Input = fmt.Sprintf("%s ies=%d canonical=%x", m.Name, len(g.OpenAlts), clip(canon, 200))
+	case k == 7 && (c.Idx/10)%2 == 1:
+		return c04LongList(c)
 	case k == 7:
 		tt := transferTypes[(c.Idx/10)%len(transferTypes)]
 		g := ngapgen.New(c.R, 30+c.R.Intn(200))
@@ -459,6 +463,145 @@ func c04Optionals(c *fw.Case) (o fw.Outcome) {
 	if exhaustive {
 		o.Count("sequences_enumerated_exhaustively", 1)
 	}
+	return
+}
+
+// ---- long lists: SEQUENCE OF types with many (small) elements
+
+var listTypeMemo []seqType
+
+// listTypes: every SEQUENCE OF type of the schema (not the ProtocolIE containers) with the tag it is referred to by.
+func listTypes() []seqType {
+	if listTypeMemo != nil {
+		return listTypeMemo
+	}
+	seen := map[string]bool{}
+	var walk func(t reflect.Type, tag string, depth int)
+	walk = func(t reflect.Type, tag string, depth int) {
+		for t.Kind() == reflect.Ptr {
+			t = t.Elem()
+		}
+		if depth > 40 {
+			return
+		}
+		switch t.Kind() {
+		case reflect.Slice:
+			if t.Elem().Kind() == reflect.Uint8 {
+				return
+			}
+			et := t.Elem()
+			key := t.String() + "|" + tag
+			if !seen[key] {
+				seen[key] = true
+				isIE := et.Kind() == reflect.Struct && et.NumField() == 3 && func() bool { p, _ := per.ParseTag(per.FieldTag(et, 2)); return p.OpenType }()
+				if !isIE && ngapgen.Can(et) {
+					listTypeMemo = append(listTypeMemo, seqType{t, dropRef(tag)})
+				}
+				walk(et, elemTag(tag), depth+1)
+			}
+		case reflect.Struct:
+			if strings.HasSuffix(t.PkgPath(), "aper") {
+				return
+			}
+			key := t.String() + "|struct"
+			if seen[key] {
+				return
+			}
+			seen[key] = true
+			for i := 0; i < t.NumField(); i++ {
+				if t.Field(i).Name == "Present" && i == 0 {
+					continue
+				}
+				walk(t.Field(i).Type, dropRef(per.FieldTag(t, i)), depth+1)
+			}
+		}
+	}
+	walk(reflect.TypeOf(ngapType.NGAPPDU{}), pduTag, 0)
+	for _, tt := range transferTypes {
+		walk(tt, "valueExt", 0)
+	}
+	return listTypeMemo
+}
+
+// longList builds a value of list type lt with n elements (n clipped to the SIZE constraint) whose elements are mostly
+// minimal - OPTIONAL components absent, so that an element may take less than one octet - with a few fuller ones in
+// between. The list is wrapped in a one-field struct because the codec's entry points take structs.
+func longList(r *rand.Rand, lt seqType, want int) (reflect.Value, int) {
+	p, _ := per.ParseTag(lt.Tag)
+	lb, ub := 0, 1<<16
+	if p.SizeLB != nil {
+		lb = int(*p.SizeLB)
+	}
+	if p.SizeUB != nil {
+		ub = int(*p.SizeUB)
+	}
+	n := want
+	if n > ub {
+		n = ub
+	}
+	if n < lb {
+		n = lb
+	}
+	ep := p
+	ep.SizeExt, ep.SizeLB, ep.SizeUB, ep.Optional = false, nil, nil, false
+	out := reflect.MakeSlice(lt.Typ, 0, n)
+	pattern := r.Intn(4)
+	for i := 0; i < n; i++ {
+		budget := -1
+		switch pattern {
+		case 1:
+			if r.Intn(4) == 0 {
+				budget = 4
+			}
+		case 2:
+			if i >= n-2 || r.Intn(8) == 0 {
+				budget = 6
+			}
+		case 3:
+			budget = []int{-1, 3, -1, -1, 8}[i%5]
+		}
+		g := ngapgen.New(r, budget)
+		g.NoExt = true
+		out = reflect.Append(out, g.Value(lt.Typ.Elem(), ep))
+	}
+	st := reflect.StructOf([]reflect.StructField{{Name: "List", Type: lt.Typ, Tag: reflect.StructTag(`aper:"` + lt.Tag + `"`)}})
+	v := reflect.New(st).Elem()
+	v.Field(0).Set(out)
+	return v, n
+}
+
+var longListSizes = []int{8, 9, 12, 16, 17, 23, 31, 32, 33, 40, 64, 65, 100, 127, 128, 129, 200, 255, 256, 257, 300, 1000}
+
+func c04LongList(c *fw.Case) (o fw.Outcome) {
+	lts := listTypes()
+	j := c.Idx / 20
+	lt := lts[j%len(lts)]
+	want := longListSizes[(j/len(lts)+j)%len(longListSizes)]
+	if lp, _ := per.ParseTag(lt.Tag); lp.SizeUB != nil && *lp.SizeUB >= 16384 && (j/len(lts))%3 == 2 && (c.Thorough() && (j/len(lts))%12 == 2 || *lp.SizeUB >= 65536) {
+		// quick: only the list whose SIZE reaches 64K (its length is the general determinant, fragmented from 16K on);
+		// thorough: also the lists bounded by 65535 (a 16-bit count), which take seconds per case
+		// the few lists that may need a fragmented length determinant (16K elements and more)
+		want = []int{16383, 16384, 16385, 20000, 32768, 49152, 49153, 65535, 65536}[(j/len(lts)/3)%9]
+		o.Tag("long-list:fragmented-length")
+	}
+	t0 := time.Now()
+	v, n := longList(c.R, lt, want)
+	t1 := time.Now()
+	defer func() {
+		if os.Getenv("VERIF_TIMING") != "" {
+			fmt.Fprintf(os.Stderr, "TIMING %d %s x%d gen=%v all=%v\n", c.Idx, lt.Typ.Elem().Name(), n, t1.Sub(t0), time.Since(t0))
+		}
+	}()
+	what := fmt.Sprintf("%s x%d", lt.Typ.Elem().Name(), n)
+	o.Tag("long-list:" + lt.Typ.Elem().Name())
+	canon := roundTrip(&o, v, "", what)
+	o.Digest, o.Nontrivial = fw.Hash(canon), n >= 2
+	o.Count("long_lists_round_tripped", 1)
+	o.Max("longest_list_elements", int64(n))
+	if n > 0 && len(canon) > 0 && 8*len(canon) < 8*n+24 {
+		o.Count("lists_with_elements_below_one_octet", 1)
+	}
+	o.Input = fmt.Sprintf("SEQUENCE (SIZE %s) OF %s with %d elements, canonical=%x", lt.Tag, lt.Typ.Elem().Name(), n, clip(canon, 120))
 	return
 }
 
